@@ -309,6 +309,20 @@ fn single_interval_from_bounds(
     Some(start_date..=end_date)
 }
 
+/// Occurences of a single day `month/day` around given year, skipping years where it does not
+/// exist (eg. February 29th).
+fn single_day_intervals(
+    month: Month,
+    day: u8,
+    years: RangeInclusive<i32>,
+    start_offset: ds::DateOffset,
+    end_offset: ds::DateOffset,
+) -> impl Iterator<Item = RangeInclusive<NaiveDate>> {
+    years
+        .filter_map(move |y| NaiveDate::from_ymd_opt(y, month.into(), day.into()))
+        .map(move |d| start_offset.apply(d)..=end_offset.apply(d))
+}
+
 impl DateFilter for ds::MonthdayRange {
     fn filter<L>(&self, date: NaiveDate, _ctx: &Context<L>) -> bool
     where
@@ -333,13 +347,16 @@ impl DateFilter for ds::MonthdayRange {
                     return interval.contains(&date);
                 }
 
-                if *start == Date::md(29, Month::February) && *end == Date::md(29, Month::February)
-                {
+                if let (Date::Fixed { year: None, month, day }, true) = (*start, start == end) {
                     return is_open_from_intervals(
                         date,
-                        (year - 1..=DATE_END.year())
-                            .filter_map(|y| NaiveDate::from_ymd_opt(y, 2, 29))
-                            .map(|d| start_offset.apply(d)..=end_offset.apply(d)),
+                        single_day_intervals(
+                            month,
+                            day,
+                            year - 1..=year + 1,
+                            *start_offset,
+                            *end_offset,
+                        ),
                     );
                 }
 
@@ -425,13 +442,16 @@ impl DateFilter for ds::MonthdayRange {
                     return Some(next_change_from_intervals(date, [interval].into_iter()));
                 }
 
-                if *start == Date::md(29, Month::February) && *end == Date::md(29, Month::February)
-                {
+                if let (Date::Fixed { year: None, month, day }, true) = (*start, start == end) {
                     return Some(next_change_from_intervals(
                         date,
-                        (year - 1..=DATE_END.year())
-                            .filter_map(|y| NaiveDate::from_ymd_opt(y, 2, 29))
-                            .map(|d| start_offset.apply(d)..=end_offset.apply(d)),
+                        single_day_intervals(
+                            month,
+                            day,
+                            year - 1..=year + 10,
+                            *start_offset,
+                            *end_offset,
+                        ),
                     ));
                 }
 
